@@ -228,6 +228,7 @@ def run(ctx: Ctx) -> None:
     from ..rules import memo
     memo.rule_memo_sound(ctx, [SRC, STATE])
     memo.rule_falsy_zero(ctx, [SRC, STATE])
+    loops.rule_index_space(ctx, [SRC, STATE, "graphiq/backends/density_matrix/functions.py"])
     memo.rule_arg_names(ctx, [SRC, STATE])
     numeric.rule_gf2round(ctx, armed=[(SRC, "_graph_finder")],
                           advisory=[(SRC, "_phase_correction"), (LCE, "_solution_basis_finder"), (LCE, "_vec_solution_finder")])
@@ -324,7 +325,15 @@ def _diag_view(src: str) -> str:
     return src.replace(b, b + "    z_diag_pos = [i for i, d in enumerate(final_z_diag) if d != 0]\n")
 
 
+def _filtered_positions(src: str) -> str:
+    a = "    graph_adj = np.zeros((n_qubits, n_qubits))\n    for i in range(n_qubits):\n        for j in range(i + 1, n_qubits):\n"
+    if src.count(a) != 1:
+        raise LookupError("knock-out anchor text missing")
+    return src.replace(a, "    graph_adj = np.zeros((n_qubits, n_qubits))\n    live = [k for k in range(n_qubits) if k >= 0]\n    n_live = len(live)\n    for i in range(n_live):\n        for j in range(i + 1, n_live):\n")
+
+
 KNOCKOUTS = [
+    Knockout("filtered-position-as-label", SRC, _filtered_positions, "index.space", "used as a label"),
     Knockout("equivalency-raw-compare", SRC, sub_once("        return canonical_form(stab1.copy()) == canonical_form(stab2.copy())", "        return stab1 == stab2"), "canon.compare", "without canonical forms", on_fixed_only=True),
     Knockout("rep-cache", STATE, sub_once("            self._rep_data = conversion_func(tmp_data)", "            if not hasattr(self, '_memo'):\n                self._memo = {}\n            self._memo[self._rep_type] = tmp_data\n            self._rep_data = self._memo[rep_type] if rep_type in self._memo else conversion_func(tmp_data)"), "table.convert", "not computed from the current data"),
     Knockout("s-to-g-clifford-arg", STATE, sub_once("            graph_list = rc.stabilizer_to_graph(rep.data.to_stabilizer())", "            graph_list = rc.stabilizer_to_graph(rep.data)"), "call.accepts", "receives a CliffordTableau", on_fixed_only=True),
